@@ -102,7 +102,10 @@ def _fan_out(ck, repo, nf):
             direct = stmt_calls(cfg, lambda c: isinstance(c.func, ast.Attribute) and c.func.attr == name)
             if direct:
                 raise AnalysisError(f"{site}: members are not reached through a loop over self.loggers (unrecognised idiom)")
-            ck.ob("R1-fan-out", site, "loop-over-all-members", False, "no member call", "the method does not reach the members", loc(mi, fn))
+            mentions = any(isinstance(x, ast.Attribute) and x.attr == "loggers" for x in ast.walk(fn)) or any(isinstance(x, ast.Call) and isinstance(x.func, ast.Attribute) and dotted(x.func.value) == "self" for x in ast.walk(fn))
+            if mentions:
+                raise AnalysisError(f"{site}: the members are handled in a way that is not a direct member call (unrecognised idiom)")
+            ck.ob("R1-fan-out", site, "loop-over-all-members", False, "the method never touches self.loggers", "the method does not reach the members", loc(mi, fn))
             continue
         full = bool(calls) and all(any(c.func.value.id == lp.ast.target.id and lp.id in cfg.enclosing_loops(n.id) for lp in member_loops) for n, c in calls) and not partial_loops
         uncond = all(len(cfg.control_deps(n.id)) == 1 for n, c in calls)   # only the loop itself
